@@ -49,6 +49,7 @@ func GenUniverse(t *rapid.T, maxPlain, minRel, maxRel int) *Universe {
 	}
 	u.Cap = rapid.SampledFrom([]int{1, 1, 2, 2, 3, 4, 8, 128}).Draw(t, "cap")
 	u.RCap = rapid.SampledFrom([]int{0, 0, 1, 2, 5}).Draw(t, "rcap")
+	u.FullRes = rapid.IntRange(0, 999).Draw(t, "fullres")%12 == 5
 	return u
 }
 
@@ -470,6 +471,9 @@ func (g *Gen) createComps(t *rapid.T) []int {
 	}
 	return g.oneRel(cs, false)
 }
+
+// DrawKind draws a legal instance of one op kind (false if the state offers none).
+func (g *Gen) DrawKind(t *rapid.T, k string) (Op, bool) { return g.drawKind(t, k) }
 
 func (g *Gen) drawKind(t *rapid.T, k string) (Op, bool) {
 	m := g.M
